@@ -107,6 +107,11 @@ func expect(c Case) Expect {
 	case !car.Executes && car.Name == "GET-apq-miss":
 		e.Outcome = "refuse-request" // no document at all
 		return e
+	case !car.Executes && car.Odd && car.Method == "GET":
+		// over GET the GraphQL parameters are the URL's; this URL has none, so the request names no
+		// document and nothing may run, whatever body and Content-Type it carries
+		e.Outcome = "refuse-request"
+		return e
 	case !car.Executes:
 		e.Outcome = "no-run"
 		return e
